@@ -102,13 +102,22 @@ def workspaces(rng, quick):
     # multi-file: chains, diamonds, missing files, files in sub-directories (no cycles)
     for _ in range(40 if quick else 600):
         a, b, c = (rng.choice(texts) for _ in range(3))
-        shape = rng.choice(["chain", "diamond", "missing", "subdir", "blockinc", "blockinc"])
+        shape = rng.choice(["chain", "diamond", "missing", "subdir", "blockinc", "blockinc", "shortroot", "shortroot"])
         if shape == "chain":
             files = {"/main.td": 'include "b.td"\n' + a, "/b.td": 'include "c.td"\n' + b, "/c.td": c}
         elif shape == "diamond":
             files = {"/main.td": 'include "b.td"\ninclude "c.td"\n' + a, "/b.td": 'include "d.td"\n' + b, "/c.td": 'include "d.td"\n' + c, "/d.td": PRELUDE}
         elif shape == "missing":
             files = {"/main.td": 'include "b.td"\ninclude "nope.td"\n' + a + '\ninclude "b.td"\n', "/b.td": b}
+        elif shape == "shortroot":
+            # a short file that uses (class, multiclass, def, field, template argument) what a LONG included file declares near its
+            # end: every position of the declarations lies beyond the end of the using file; a third file uses them without
+            # being the root
+            pad = rng.choice(WIDE) * rng.randrange(20, 200) + "".join("class Pad%d;\n" % i for i in range(rng.randrange(0, 12)))
+            lib = pad + b + "\n// late doc\nclass Late<int width> { int w = width; }\nclass Reg { int Enc = 0; }\ndef R0 : Reg;\nmulticlass LateM<int n> { def _x : Reg; }\ndefvar latev = 1;\n"
+            use = "defm m : LateM<2>;\ndef u2 : Late<latev> { let w = R0.Enc; }\n"
+            main = 'include "lib.td"\n' + rng.choice(["", 'include "use.td"\n']) + "def d : Late<1>;\ndefvar e = R0.Enc;\ndef R1 : Reg { let Enc = latev; }\n"
+            files = {"/main.td": main, "/lib.td": lib, "/use.td": use}
         elif shape == "blockinc":
             # an include statement inside a block: the included declarations belong to another file than the block
             opener = rng.choice(["defset list<A> S = {\n", "let v1 = 1 in {\n", "foreach i = [1, 2] in {\n", "if 1 then {\n", "multiclass MM {\n"])
